@@ -163,6 +163,9 @@ func (d *duplexHTTPCall) CloseRead() error {
 		return nil
 	}
 	if err := discard(d.response.Body); err != nil {
+		// Even if we can't drain the body, we must close it: the caller is done
+		// with the response.
+		_ = d.response.Body.Close()
 		return wrapIfRSTError(err)
 	}
 	return wrapIfRSTError(d.response.Body.Close())
